@@ -133,5 +133,42 @@ impl<'a> Checksum<'a> {
         }''',
                 rw=[('R3', r'self\.algorithms\.get\(algorithm\)', 'x_hm_get(&self.algorithms, algorithm)', '*'),
                     ('R10', r'\|v\| ChecksumValue\(v\)', "|v: &'b Cow<'_, str>| -> (cv: ChecksumValue<'b>) ensures cv.0@ == v@ { ChecksumValue(v) }", '*')]),
+           # ---- the remaining accessors; `hex`'s FromHex / ToHex are dependency traits, stubbed with a relation (R9) ----
+           dict(id='stub.hex', kind='raw', text="""
+// R9: stubs of hex::FromHex / hex::ToHex (dependency contracts, assumed; the round trip decode(encode(b)) == b is exercised by B)
+pub trait FromHex: Sized {
+    type Error;
+    spec fn from_hex_rel(text: Seq<char>, r: Result<Self, Self::Error>) -> bool;
+    fn from_hex(hex: &str) -> (r: Result<Self, Self::Error>)
+        ensures Self::from_hex_rel(hex@, r);
+}
+pub trait ToHex {
+    spec fn hex_text(&self) -> Seq<char>;
+    fn encode_hex(&self) -> (r: String)
+        ensures r@ == self.hex_text();
+}
+"""),
+           dict(id='U-ckval.raw', file=F, fn='raw', ctx=r"impl<'a> ChecksumValue<'a>", wrap="impl<'a> ChecksumValue<'a>", properties=['C12'],
+                contract='        ensures r@ == self.0@'),
+           dict(id='U-ckval.decode', file=F, fn='decode', ctx=r"impl<'a> ChecksumValue<'a>", wrap="impl<'a> ChecksumValue<'a>", properties=['C12'],
+                contract='        ensures T::from_hex_rel(self.0@, r)'),
+           dict(id='U-ckacc.get_raw', file=F, fn='get_raw', ctx=r"impl Checksum<'_>\s*\{", wrap="impl Checksum<'_>", properties=['C12'],
+                contract="""        ensures match r {
+            Some(v) => self.entries().contains_key(algorithm@) && v@ == self.entries()[algorithm@],
+            None => !self.entries().contains_key(algorithm@),
+        }""",
+                rw=[('R10', r'\|v\| v\.raw\(\)', "|v: ChecksumValue<'b>| -> (s: &'b str) ensures s@ == v.0@ { v.raw() }", '*')]),
+           dict(id='U-ckacc.get', file=F, fn='get', ctx=r"impl Checksum<'_>\s*\{", wrap="impl Checksum<'_>", properties=['C12'],
+                contract="""        ensures
+            // absent: nothing to decode
+            !self.entries().contains_key(algorithm@) ==> r is Ok && r->Ok_0 is None,
+            // present: exactly one decoding of the stored text, its outcome passed through
+            self.entries().contains_key(algorithm@) ==> exists|x: Result<T, T::Error>| #[trigger] T::from_hex_rel(self.entries()[algorithm@], x)
+                && match x { Ok(t) => r == Ok::<Option<T>, T::Error>(Some(t)), Err(e) => r == Err::<Option<T>, T::Error>(e) }""",
+                rw=[('R10', r'\|v\| v\.decode\(\)', "|v: ChecksumValue<'_>| -> (x: Result<T, T::Error>) ensures T::from_hex_rel(v.0@, x) { v.decode() }", '*')]),
+           dict(id='U-ckacc.insert', file=F, fn='insert', ctx=r"impl Checksum<'_>\s*\{", wrap="impl Checksum<'_>", properties=['C12'], ret=None,
+                contract="""        requires keys_lower(old(self).entries())
+        // C12: stored under the lower-cased algorithm as the hex text of the value
+        ensures final(self).entries() == old(self).entries().insert(lower_seq(algorithm@), value.hex_text()), keys_lower(final(self).entries())"""),
     ],
 )
